@@ -106,6 +106,9 @@ def exS : Schema := ⟨[⟨[{ num := 1, kind := .int32, card := .required }, { n
 example : marshal exS 0 false none = .error .required ∧ marshal exS 0 false (some Msg.empty) = .error .required ∧
     marshal exS 0 true none = .ok [] ∧ checkInit exS 0 none = false := ⟨rfl, rfl, rfl, rfl⟩
 
-example : format_nil_eq_empty_partial (fun _ => ['<', 'n', 'i', 'l', '>']) rfl = format_nil_eq_empty_partial _ rfl := rfl
+/-- the hypothesis of `format_nil_eq_empty_partial` is satisfiable (by a renderer that prints `<nil>` for the
+empty message, which neither prototext nor protojson is) -/
+example : format (fun _ => ['<', 'n', 'i', 'l', '>']) none = format (fun _ => ['<', 'n', 'i', 'l', '>']) (some Msg.empty) :=
+  format_nil_eq_empty_partial _ rfl
 
 end C31
